@@ -21,6 +21,8 @@ def run_sink_property(prop, rule, tier, seed, replay, plans, assumptions, classi
         with open(src, "w") as f:
             f.write("\n".join(lines) + "\n")
         sub = meta.get("sub", "parse")
+        if sub == "xml":
+            meta.setdefault("replay_flags", ["--mode", "sink"])
         r.gen_validate("replay", [sub, "--replay"] + meta.get("replay_flags", []), SPEC, CFG, 1, classify, core.count_resets,
                        stdin_files=[src], env=env)
         return r.finish(rule, write=False)
